@@ -372,14 +372,4 @@ class C11(Check):
             yield t2
 
 
-    def known(self):
-        def stale(trace, v):
-            return v['law'] == 'L-lockstep' and 'before refreshing it' in v.get('detail', '') and trace['cfg']['vectorize']
-
-        def ab(t):
-            t['cfg']['vectorize'] = False
-            return t
-        return [KF('KF-C11-buffer-read-before-refresh', stale, ab)]
-
-
 CHECK = C11()
